@@ -6,8 +6,9 @@ CONSTANTS
   DeleteByName = FALSE
   ClaimIgnoresCancel = FALSE
   PrefixCancellers = {}
+  BlockingSend = FALSE
   DropOnClaim = FALSE
   MaxRuns = 3
 INVARIANTS TypeOK NoOverlap NoPanic NameReusable NameSlotUnique SuccessorReachable LockFreeAtEnd
-PROPERTIES KeepsTicking
+PROPERTIES KeepsTicking NoStuckCaller
 CHECK_DEADLOCK FALSE
